@@ -100,3 +100,56 @@ package majority
 //@   ensures [clear_win_of_newcomer] !(abs(s1 - s2) <= eps) && !(s2 < s1) ==> result2 == another && len(result1) == 0
 //@             && len(result0) == len(worseThanCurrent) + 1 && len(result0[len(worseThanCurrent)]) == len(sameBuffer) + 1
 //@             && isRecord(result0[len(worseThanCurrent)][len(sameBuffer)], current, s1, another.Id, s2)
+
+// ---- prepareRanking: tie groups in drop-out order -> ranking with one-level-down links (C01, C11)
+
+//@ spec base(rk [][]model.AlternativeResult, g int) int = g <= 0 ? 0 : base(rk, g - 1) + len(rk[g - 1])
+//@ spec plen(rk [][]model.AlternativeResult, g int) int = g <= 0 ? 0 : len(rk[g - 1])
+// entryOf / linkPrev / linkBefore / linkAfter: entry e is alternative i of group g; its k-th link is the k-th member of the previous group
+// (the one that dropped out just before); after those come the other members j != i of its own tie group, in order
+//@ pred entryOf(e model.AlternativesRankEntry, rk [][]model.AlternativeResult, g int, i int) =
+//@      e.AlternativeResult == rk[g][i] && len(e.BetterThanOrSameAs) == plen(rk, g) + len(rk[g]) - 1
+//@ pred linkPrev(e model.AlternativesRankEntry, rk [][]model.AlternativeResult, g int, k int) = e.BetterThanOrSameAs[k] == rk[g - 1][k].Alternative.Id
+//@ pred linkBefore(e model.AlternativesRankEntry, rk [][]model.AlternativeResult, g int, j int) = e.BetterThanOrSameAs[plen(rk, g) + j] == rk[g][j].Alternative.Id
+//@ pred linkAfter(e model.AlternativesRankEntry, rk [][]model.AlternativeResult, g int, j int) = e.BetterThanOrSameAs[plen(rk, g) + j - 1] == rk[g][j].Alternative.Id
+
+//@ func prepareRanking
+//@   property C01 C11
+//@   ensures [one_entry_each] result != nil && fresh(result) && len(*result) == base(ranking, len(ranking))
+//@   ensures [reverse_drop_out_order] forall g int, i int :: 0 <= g && g < len(ranking) && 0 <= i && i < len(ranking[g]) ==>
+//@             entryOf((*result)[len(*result) - 1 - (base(ranking, g) + i)], ranking, g, i)
+//@   ensures [links_previous_group] forall g int, i int, k int :: 0 <= g && g < len(ranking) && 0 <= i && i < len(ranking[g]) && 0 <= k && k < plen(ranking, g) ==>
+//@             linkPrev((*result)[len(*result) - 1 - (base(ranking, g) + i)], ranking, g, k)
+//@   ensures [links_own_group_before] forall g int, i int, m int :: 0 <= g && g < len(ranking) && 0 <= i && i < len(ranking[g]) && 0 <= m && m < i ==>
+//@             entryOf((*result)[len(*result) - 1 - (base(ranking, g) + i)], ranking, g, i) && linkBefore((*result)[len(*result) - 1 - (base(ranking, g) + i)], ranking, g, m)
+//@   ensures [links_own_group_after] forall g int, i int, m int :: 0 <= g && g < len(ranking) && 0 <= i && i < len(ranking[g]) && i < m && m < len(ranking[g]) ==>
+//@             entryOf((*result)[len(*result) - 1 - (base(ranking, g) + i)], ranking, g, i) && linkAfter((*result)[len(*result) - 1 - (base(ranking, g) + i)], ranking, g, m)
+//@   loop 1 invariant [count] len(result) == base(ranking, iter) && fresh(result) && 0 <= base(ranking, iter)
+//@   loop 1 invariant [previous_group] len(worseOneLevelThanCurrent) == plen(ranking, iter)
+//@             && forall k int :: 0 <= k && k < plen(ranking, iter) ==> worseOneLevelThanCurrent[k] == ranking[iter - 1][k].Alternative.Id
+//@   loop 1 invariant [entries] forall g int, i int :: 0 <= g && g < iter && 0 <= i && i < len(ranking[g]) ==> entryOf(result[base(ranking, g) + i], ranking, g, i)
+//@   loop 1 invariant [links_prev] forall g int, i int, k int :: 0 <= g && g < iter && 0 <= i && i < len(ranking[g]) && 0 <= k && k < plen(ranking, g) ==> entryOf(result[base(ranking, g) + i], ranking, g, i) && linkPrev(result[base(ranking, g) + i], ranking, g, k)
+//@   loop 1 invariant [links_same_before] forall g int, i int, m int :: 0 <= g && g < iter && 0 <= i && i < len(ranking[g]) && 0 <= m && m < len(ranking[g]) && m < i ==> entryOf(result[base(ranking, g) + i], ranking, g, i) && linkBefore(result[base(ranking, g) + i], ranking, g, m)
+//@   loop 1 invariant [links_same_after] forall g int, i int, m int :: 0 <= g && g < iter && 0 <= i && i < len(ranking[g]) && 0 <= m && m < len(ranking[g]) && m > i ==> entryOf(result[base(ranking, g) + i], ranking, g, i) && linkAfter(result[base(ranking, g) + i], ranking, g, m)
+//@   loop 1 invariant [input] unchanged(ranking)
+//@   loop 1 invariant [positions] forall g int :: 0 <= g && g < iter ==> 0 <= base(ranking, g) && base(ranking, g) + len(ranking[g]) <= base(ranking, iter)
+//@   loop 2 invariant [ctx] 0 <= iter1 - 1 && iter1 - 1 < len(ranking) && equivalentEntries == ranking[iter1 - 1]
+//@   loop 2 invariant [positions] 0 <= base(ranking, iter1 - 1) && forall g int :: 0 <= g && g < iter1 - 1 ==> 0 <= base(ranking, g) && base(ranking, g) + len(ranking[g]) <= base(ranking, iter1 - 1)
+//@   loop 2 invariant [count] len(result) == base(ranking, iter1 - 1) + iter && fresh(result)
+//@   loop 2 invariant [previous_group] len(worseOneLevelThanCurrent) == plen(ranking, iter1 - 1)
+//@             && forall k int :: 0 <= k && k < plen(ranking, iter1 - 1) ==> worseOneLevelThanCurrent[k] == ranking[iter1 - 2][k].Alternative.Id
+//@   loop 2 invariant [ids_so_far] len(sameAlternativesId) == iter && forall k int :: 0 <= k && k < iter ==> sameAlternativesId[k] == ranking[iter1 - 1][k].Alternative.Id
+//@   loop 2 invariant [links_apart] isnil(sameAlternativesId) || forall e int :: 0 <= e && e < len(result) ==> arr(result[e].BetterThanOrSameAs) != arr(sameAlternativesId)
+//@   loop 2 invariant [entries] forall g int, i int :: 0 <= g && g < iter1 - 1 && 0 <= i && i < len(ranking[g]) ==> entryOf(result[base(ranking, g) + i], ranking, g, i)
+//@   loop 2 invariant [entries_of_this_group] forall i int :: 0 <= i && i < iter ==> entryOf(result[base(ranking, iter1 - 1) + i], ranking, iter1 - 1, i)
+//@   loop 2 invariant [links_prev] forall g int, i int, k int :: 0 <= g && g < iter1 - 1 && 0 <= i && i < len(ranking[g]) && 0 <= k && k < plen(ranking, g) ==> entryOf(result[base(ranking, g) + i], ranking, g, i) && linkPrev(result[base(ranking, g) + i], ranking, g, k)
+//@   loop 2 invariant [links_prev_of_this_group] forall i int, k int :: 0 <= i && i < iter && 0 <= k && k < plen(ranking, iter1 - 1) ==> entryOf(result[base(ranking, iter1 - 1) + i], ranking, iter1 - 1, i) && linkPrev(result[base(ranking, iter1 - 1) + i], ranking, iter1 - 1, k)
+//@   loop 2 invariant [links_same_before] forall g int, i int, m int :: 0 <= g && g < iter1 - 1 && 0 <= i && i < len(ranking[g]) && 0 <= m && m < len(ranking[g]) && m < i ==> entryOf(result[base(ranking, g) + i], ranking, g, i) && linkBefore(result[base(ranking, g) + i], ranking, g, m)
+//@   loop 2 invariant [links_same_after] forall g int, i int, m int :: 0 <= g && g < iter1 - 1 && 0 <= i && i < len(ranking[g]) && 0 <= m && m < len(ranking[g]) && m > i ==> entryOf(result[base(ranking, g) + i], ranking, g, i) && linkAfter(result[base(ranking, g) + i], ranking, g, m)
+//@   loop 2 invariant [links_same_of_this_group_before] forall i int, m int :: 0 <= i && i < iter && 0 <= m && m < len(ranking[iter1 - 1]) && m < i ==> entryOf(result[base(ranking, iter1 - 1) + i], ranking, iter1 - 1, i) && linkBefore(result[base(ranking, iter1 - 1) + i], ranking, iter1 - 1, m)
+//@   loop 2 invariant [links_same_of_this_group_after] forall i int, m int :: 0 <= i && i < iter && 0 <= m && m < len(ranking[iter1 - 1]) && m > i ==> entryOf(result[base(ranking, iter1 - 1) + i], ranking, iter1 - 1, i) && linkAfter(result[base(ranking, iter1 - 1) + i], ranking, iter1 - 1, m)
+//@   loop 3 invariant [ctx] 0 <= i && i < len(equivalentEntries) && r == equivalentEntries[i] && iter2 == i + 1
+//@   loop 3 invariant [building] len(thisAlternativeWorse) == plen(ranking, iter1 - 1) + iter - (i < iter ? 1 : 0)
+//@             && (forall k int :: 0 <= k && k < plen(ranking, iter1 - 1) ==> thisAlternativeWorse[k] == ranking[iter1 - 2][k].Alternative.Id)
+//@             && (forall m int :: 0 <= m && m < iter && m < i ==> thisAlternativeWorse[plen(ranking, iter1 - 1) + m] == ranking[iter1 - 1][m].Alternative.Id)
+//@             && (forall m int :: i < m && m < iter ==> thisAlternativeWorse[plen(ranking, iter1 - 1) + m - 1] == ranking[iter1 - 1][m].Alternative.Id)
